@@ -15,8 +15,11 @@ from irlayout import Layout
 M64 = (1 << 64) - 1
 
 class Ptr:
-    __slots__ = ('obj', 'off')
-    def __init__(self, obj, off): self.obj = obj; self.off = off
+    # poison: None, or the condition (True / z3 Bool) under which this pointer was produced by indexing outside a
+    # fixed-size array (getelementptr inbounds): dereferencing it then is an out-of-bounds array access even if it
+    # stays inside the enclosing object.  Computing such a pointer without using it is harmless (speculation).
+    __slots__ = ('obj', 'off', 'poison')
+    def __init__(self, obj, off, poison=None): self.obj = obj; self.off = off; self.poison = poison
     def __repr__(self): return 'Ptr(%s,%s)' % (self.obj, self.off)
 NULL = Ptr(0, 0)
 class Fn:
@@ -41,6 +44,13 @@ class CxxThrow(Exception):
     def __init__(self, exn, tinfo): self.exn = exn; self.tinfo = tinfo; self.adjusted = exn
 
 def is_sym(v): return isinstance(v, z3.ExprRef)
+
+_NOSIMP = bool(os.environ.get('NOSIMP'))
+_FRESH = os.environ.get('FRESH')
+_zsimp = z3.simplify
+def _simplify(e, *a, **k):
+    if _NOSIMP: return e
+    return _zsimp(e, *a, **k)
 
 def sgn(v, bits):
     return v - (1 << bits) if v >> (bits - 1) else v
@@ -290,8 +300,9 @@ class Machine:
         st = self.objs.get(self.gid.get('__libc_single_threaded', -1))
         if st is not None: st.cells[0] = (1, 1)
         self.pc = []
-        self.solver = z3.Solver()
+        self.solver = z3.SolverFor(os.environ['SOLVERFOR']) if os.environ.get('SOLVERFOR') else z3.Solver()
         self.last_model = None
+        self.tier1_timeouts = 0
         self.prefix = list(prefix); self.decisions = []; self.pending = []
         self.nsym = 0
         self.inputs = []         # (name, kind, z3 var, lo, hi)
@@ -352,15 +363,75 @@ class Machine:
         return z3.BitVec('%s#%d' % (name, self.nsym), bits)
 
     def check(self, extra):
+        """is pc AND extra satisfiable?  returns (sat?, model or None).
+        Tier 1: in-process incremental z3 with a short timeout.  Tier 2 (only when tier 1 gives up): the same
+        query as SMT-LIB2 text to cvc5 --solve-bv-as-int=sum (decides bounded linear time arithmetic in
+        milliseconds where bit-blasting needs minutes) and, failing that, the z3 4.8 CLI.  unknown everywhere =
+        Inconclusive, never success."""
         t = time.time()
+        fast_ms = int(self.opts.get('solver_fast_ms', 250))
+        if self.tier1_timeouts >= 3: fast_ms = max(40, fast_ms // 6)   # this path is in a region z3 cannot decide quickly
+        self.solver.set('timeout', fast_ms)
         self.solver.push(); self.solver.add(extra)
         r = self.solver.check()
         mdl = self.solver.model() if r == z3.sat else None
         self.solver.pop()
-        self.stats['queries'] += 1; self.stats['solver_s'] += time.time() - t
-        if r == z3.unknown: raise Inconclusive('solver returned unknown: ' + self.solver.reason_unknown())
+        self.stats['queries'] += 1
+        if r == z3.unknown:
+            self.tier1_timeouts += 1
+            r, mdl = self.check_external(extra)
+        self.stats['solver_s'] += time.time() - t
+        if self.debug and time.time() - t > 3.0:
+            print('SLOWQUERY %.1fs %s in %s' % (time.time() - t, r, self.stack[-1] if self.stack else '?'))
+        if r == z3.unknown: raise Inconclusive('solver returned unknown (z3 and external solvers)')
         if mdl is not None: self.last_model = mdl
         return r == z3.sat, mdl
+
+    def check_external(self, extra):
+        import subprocess, tempfile
+        self.stats['ext_queries'] = self.stats.get('ext_queries', 0) + 1
+        s2 = z3.Solver()
+        for p in self.pc: s2.add(p)
+        s2.add(extra)
+        text = s2.to_smt2()
+        has_fp = 'FloatingPoint' in text or 'fp.' in text or 'to_fp' in text
+        limit_ms = int(self.opts.get('solver_timeout_ms', 30000))
+        fd, path = tempfile.mkstemp(prefix='q_', suffix='.smt2', dir=self.opts.get('tmpdir', '/tmp'))
+        try:
+            body = text.replace('(check-sat)', '(check-sat)\n(get-model)')
+            os.write(fd, ((('(set-logic QF_BV)\n') if not has_fp else '') + '(set-option :produce-models true)\n' + body).encode()); os.close(fd)
+            cmds = []
+            if not has_fp: cmds.append(['cvc5', '--solve-bv-as-int=sum', '--tlimit=%d' % limit_ms, path])
+            cmds.append(['z3', '-T:%d' % max(1, limit_ms // 1000), path])
+            for cmd in cmds:
+                try:
+                    out = subprocess.run(cmd, stdout=subprocess.PIPE, stderr=subprocess.PIPE, timeout=limit_ms / 1000 + 5).stdout.decode(errors='replace')
+                except subprocess.TimeoutExpired:
+                    continue
+                first = out.strip().split('\n', 1)[0].strip() if out.strip() else ''
+                if first == 'unsat' and '(error' not in out.split('unsat', 1)[0]:
+                    self.stats['ext_' + cmd[0]] = self.stats.get('ext_' + cmd[0], 0) + 1
+                    return z3.unsat, None
+                if first == 'sat':
+                    # rebuild a z3 model from the printed one: pin every declared constant and re-check in process
+                    pins = []
+                    for m in re.finditer(r'\(define-fun\s+(\|[^|]*\||\S+)\s+\(\)\s+\(_ BitVec (\d+)\)\s+(#b[01]+|#x[0-9a-fA-F]+|\(_ bv(\d+) \d+\))\)', out):
+                        name = m.group(1).strip('|'); bits = int(m.group(2)); v = m.group(3)
+                        val = int(v[2:], 2) if v.startswith('#b') else int(v[2:], 16) if v.startswith('#x') else int(m.group(4))
+                        pins.append(z3.BitVec(name, bits) == val)
+                    s3 = z3.Solver(); s3.set('timeout', limit_ms)
+                    for p in self.pc: s3.add(p)
+                    s3.add(extra); s3.add(*pins)
+                    r3 = s3.check()
+                    if r3 == z3.sat:
+                        self.stats['ext_' + cmd[0]] = self.stats.get('ext_' + cmd[0], 0) + 1
+                        return z3.sat, s3.model()
+                    # the external model does not validate in z3: do not trust this answer
+                    continue
+            return z3.unknown, None
+        finally:
+            try: os.remove(path)
+            except OSError: pass
 
     def model(self):
         """a model of the current path condition"""
@@ -417,7 +488,7 @@ class Machine:
     def branch(self, c, what='branch'):
         """decide a symbolic boolean; returns python bool, forking as needed"""
         if isinstance(c, (bool, int)): return bool(c)
-        c = z3.simplify(c)
+        c = _simplify(c)
         if z3.is_true(c): return True
         if z3.is_false(c): return False
         k = len(self.decisions)
@@ -450,7 +521,7 @@ class Machine:
     def concretize(self, v, what='value'):
         """enumerate feasible values of symbolic bitvector v by forking; the chosen value is part of the decision"""
         if not is_sym(v): return v
-        v = z3.simplify(v)
+        v = _simplify(v)
         if z3.is_bv_value(v): return v.as_long()
         if z3.is_bool(v): return self.branch(v)
         while True:
@@ -514,7 +585,7 @@ class Machine:
                     return Ptr(a.obj, a.off + (sgn(bb, w) if op == 'add' else -sgn(bb, w)))
             if isinstance(a, Ptr) and isinstance(b, Ptr) and op == 'sub' and a.obj == b.obj:
                 r = a.off - b.off
-                return z3.simplify(r) if is_sym(r) else r & ((1 << w) - 1)
+                return _simplify(r) if is_sym(r) else r & ((1 << w) - 1)
             a = self.p2i(a) if isinstance(a, (Ptr, Fn)) else a
             b = self.p2i(b) if isinstance(b, (Ptr, Fn)) else b
         if is_sym(a) or is_sym(b):
@@ -593,12 +664,12 @@ class Machine:
             return a
         if p.obj == 0: return p.off
         r = self.objs[p.obj].base + p.off
-        return z3.simplify(r) if is_sym(r) else r
+        return _simplify(r) if is_sym(r) else r
 
     def i2p(self, v):
         if isinstance(v, (Ptr, Fn)): return v
         if is_sym(v):
-            v = z3.simplify(v)
+            v = _simplify(v)
             if z3.is_bv_value(v): v = v.as_long()
             else:
                 raise Inconclusive('symbolic integer converted to pointer')
@@ -726,12 +797,16 @@ class Machine:
             if isinstance(p, Fn): raise Violation('memory', '%s through function pointer' % what)
         if p.obj == 0:
             raise Violation('memory', '%s through null/invalid pointer (%s)' % (what, p.off if not is_sym(p.off) else 'sym'))
+        if p.poison is not None:
+            if p.poison is True: raise Violation('array-index', '%s through a pointer indexed outside its fixed-size array' % what)
+            s_, mdl = self.check(p.poison)
+            if s_: raise Violation('array-index', '%s through a pointer indexed outside its fixed-size array (symbolic index)' % what, mdl)
         o = self.objs[p.obj]
         if not o.alive:
             raise Violation('memory', '%s of %s object %s freed/ended in %s' % (what, 'freed' if o.kind == 'heap' else 'dead', self.describe(o), o.freed_by))
         off = p.off
         if is_sym(off):
-            off = z3.simplify(off)
+            off = _simplify(off)
             if z3.is_bv_value(off): off = sgn(off.as_long(), 64)
             else:
                 bad = z3.Or(off < 0, off + n > o.size)
@@ -760,7 +835,7 @@ class Machine:
         if is_sym(v):
             if z3.is_fp(v): v = z3.fpToIEEEBV(v)
             if z3.is_bool(v): v = self.tosym(v, 8 * n)
-            for i in range(n): o.cells[start + i] = (1, z3.simplify(z3.Extract(8 * i + 7, 8 * i, v)))
+            for i in range(n): o.cells[start + i] = (1, _simplify(z3.Extract(8 * i + 7, 8 * i, v)))
         else:
             for i in range(n): o.cells[start + i] = (1, (v >> (8 * i)) & 0xff)
 
@@ -811,13 +886,14 @@ class Machine:
             if cc is None:
                 b = self.fresh('uninit_%d_%s_%d' % (o.id, re.sub(r'[^A-Za-z0-9_]', '_', o.name or o.kind)[:24], i), 8)
                 self.uninit_syms[b.decl().name()] = b
+                if self.debug: print('UNINIT read of %s+%d in %s' % (self.describe(o), i, ' < '.join(self.stack[-1:-5:-1])))
                 cells[i] = (1, b); parts.append(b); i += 1
             elif cc[0] == 1:
                 parts.append(cc[1]); i += 1
             else:
                 self.explode(o, i)
         if any(is_sym(x) for x in parts):
-            v = z3.simplify(z3.Concat(*[self.tosym(x, 8) for x in reversed(parts)])) if n > 1 else parts[0]
+            v = _simplify(z3.Concat(*[self.tosym(x, 8) for x in reversed(parts)])) if n > 1 else parts[0]
         else:
             v = 0
             for k, b in enumerate(parts): v |= b << (8 * k)
@@ -829,7 +905,10 @@ class Machine:
             if isinstance(v, (Ptr, Fn)): return v
             if is_sym(v):
                 us = self.uses_uninit(v)
-                if us: raise Violation('uninit', 'pointer loaded from uninitialised memory (%s)' % us[0])
+                # loading an indeterminate pointer value is harmless until it is used (libstdc++'s deque does it
+                # when it steps to the next map slot): carry it as an invalid pointer; any dereference, call or
+                # branch on it is reported
+                if us: return Ptr(0, v)
                 return self.i2p(v)
             if isinstance(v, float): v = d2b(v)
             return self.i2p(v)
@@ -1009,32 +1088,34 @@ class Machine:
                 elif op == 'gep':
                     o = x[2]; base = fr[o[1]] if o[0] else o[1]
                     off = x[3]
+                    poison = None
                     for st in x[4]:
                         if st[0] == 'badidx':
-                            raise Violation('array-index', 'constant index %d outside array of %d elements' % (st[1], st[2]))
+                            poison = True; continue
                         o, w, esz, bound = st
                         iv = fr[o[1]] if o[0] else o[1]
                         if isinstance(iv, (Ptr, Fn)): iv = self.p2i(iv)
                         if is_sym(iv):
                             iv = self.tosym(iv, w)
                             if bound is not None and bound > 1:
-                                s_, mdl = self.check(z3.Or(iv < 0, iv > bound))
-                                if s_: raise Violation('array-index', 'index outside array of %d elements (symbolic)' % bound, mdl)
+                                c = z3.Or(iv < 0, iv > bound)
+                                poison = c if poison is None else (True if poison is True else z3.Or(poison, c))
                             off = off + (z3.SignExt(64 - w, iv) if w < 64 else iv) * esz
                         else:
                             sv = sgn(iv, w)
-                            if bound is not None and bound > 1 and not (0 <= sv <= bound):
-                                raise Violation('array-index', 'index %d outside array of %d elements' % (sv, bound))
+                            if bound is not None and bound > 1 and not (0 <= sv <= bound): poison = True
                             off = off + sv * esz
                     if isinstance(base, Ptr):
                         no = base.off + off
-                        if is_sym(no): no = z3.simplify(no)
-                        fr[x[1]] = Ptr(base.obj, no)
+                        if is_sym(no): no = _simplify(no)
+                        if base.poison is not None:
+                            poison = base.poison if poison is None else (True if (poison is True or base.poison is True) else z3.Or(poison, base.poison))
+                        fr[x[1]] = Ptr(base.obj, no, poison)
                     elif isinstance(base, Fn):
                         fr[x[1]] = base
                     else:
                         b2 = self.i2p(base)
-                        fr[x[1]] = Ptr(b2.obj, b2.off + off) if isinstance(b2, Ptr) else b2
+                        fr[x[1]] = Ptr(b2.obj, b2.off + off, poison) if isinstance(b2, Ptr) else b2
                 elif op == 'cast':
                     o = x[3]
                     fr[x[1]] = self.cast(x[2], x[4], fr[o[1]] if o[0] else o[1], x[5])
@@ -1086,7 +1167,7 @@ class Machine:
                     o = x[3]; a = fr[o[1]] if o[0] else o[1]
                     o = x[4]; b = fr[o[1]] if o[0] else o[1]
                     if is_sym(c):
-                        c = z3.simplify(self.tobool(c))
+                        c = _simplify(self.tobool(c))
                         if z3.is_true(c): c = True
                         elif z3.is_false(c): c = False
                     if not is_sym(c): fr[x[1]] = a if c else b
@@ -1104,7 +1185,7 @@ class Machine:
                 elif op == 'switch':
                     o = x[1]; v = fr[o[1]] if o[0] else o[1]
                     if is_sym(v):
-                        v = z3.simplify(v)
+                        v = _simplify(v)
                         if z3.is_bv_value(v): v = v.as_long()
                     tgt = None
                     if is_sym(v):
@@ -1304,6 +1385,7 @@ class Machine:
         status = 'ok'; detail = ''
         try:
             try:
+                for ctor in self.global_ctors(): self.call(ctor, [])
                 self.call(entry, [])
             except CxxThrow as e:
                 raise Violation('uncaught-exception', 'uncaught C++ exception ' + str(self.ti_name(e.tinfo)))
@@ -1332,6 +1414,21 @@ class Machine:
             except (PathEnd, Inconclusive, z3.Z3Exception):
                 res['inputs'] = None; res['trace'] = None
         return res
+
+    def global_ctors(self):
+        c = getattr(self, '_ctors', None)
+        if c is not None: return c
+        c = []
+        g = self.m.globals.get('llvm.global_ctors')
+        if g is not None and g['init'] is not None and g['init'][0] == 'agg':
+            ents = []
+            for t, e in g['init'][1]:
+                prio = e[1][0][1][1]; fn = e[1][1][1]
+                while fn[0] == 'ccast': fn = fn[2][1]
+                if fn[0] == 'global': ents.append((prio, len(ents), self.L.alias_target(fn[1])))
+            c = [f for _, _, f in sorted(ents)]
+        self._ctors = c
+        return c
 
     def eval_inputs(self, mdl):
         out = []
